@@ -624,9 +624,47 @@ theorem indexParentClassList_vis : VSpec ws0 (indexParentClassList r n) n := by
   · refine PC.silent_bind currentMulticlassId_silent h ?_
     intro mid c2 h
     split
-    · refine hloop ?_ c2 h
-      intro x gx b
-      exact (resolveClassRefAsMulticlass_vis hr (gx.ok hn)).bind_silent (by intros; silent)
+    · rename_i mcId
+      have hmp : ∀ x, Got n (Ast.is .ClassRef) x → VSpec ws0 (multiclassParent r mcId x) x := by
+        intro x gx
+        unfold multiclassParent
+        exact (resolveClassRefAsMulticlass_vis hr (gx.ok hn)).bind_silent (by intros; silent)
+      refine PC.silent_bind currentDefmId_silent h ?_
+      intro did c3 h
+      dsimp only
+      split
+      · exact PC.pure (h.exit (by ins hn))
+      · rename_i first rest hcl
+        have hord := Ast.children_sorted hn (Ast.is .ClassRef)
+        have hcl' : Ast.children n (Ast.is .ClassRef) = first :: rest := hcl
+        rw [hcl', List.pairwise_cons] at hord
+        have gfirst : Got n (Ast.is .ClassRef) first := Got.mem (by rw [hcl']; simp)
+        have grest : ∀ x ∈ rest, Got n (Ast.is .ClassRef) x := fun x hx => Got.mem (by rw [hcl']; simp [hx])
+        refine PC.visit_bind (hmp first gfirst) h (by djs hn) ?_
+        intro _ c4 h
+        refine PC.visitL_bind (forIn_vis hord.2 ?_) h ?_ ?_
+        · intro x hx b c5 f5 hc5
+          refine PC.bind ((namesClassOnly_silent x).run c5) ?_
+          intro nb c6 hs6
+          have hc6 := hc5.sil hs6
+          split
+          · refine PC.bind (resolveClassRefAsClass_vis hr ((grest x hx).ok hn) c6 f5 hc6) ?_
+            intro _ c7 h7
+            exact PC.pure (Vis.sil_left hs6 h7)
+          · refine PC.bind (hmp x (grest x hx) c6 f5 hc6) ?_
+            intro _ c7 h7
+            exact PC.pure (Vis.sil_left hs6 h7)
+        · intro a ha b hb
+          simp only [List.nil_append, List.mem_singleton] at ha
+          subst ha
+          exact Or.inl (hord.1 b hb)
+        · intro _ c5 h5
+          refine PC.pure (h5.exit ?_)
+          intro v hv
+          simp only [List.nil_append, List.cons_append, List.mem_cons] at hv
+          rcases hv with rfl | hv
+          · exact gfirst.inside hn
+          · exact (grest v hv).inside hn
     · refine PC.silent_bind currentDefmId_silent h ?_
       intro did c3 h
       split
@@ -732,19 +770,32 @@ theorem indexFieldLet_vis : VSpec ws0 (indexFieldLet r n) n := by
         · rename_i fieldId
           refine PC.silent_bind (Silent.withSM _) h ?_
           intro ft c3 h
-          -- the new field is defined, then the overridden one is referenced, at the same identifier
-          refine PC.bind (addRecordField_push _ c3) ?_
-          intro fid c4 hp1
-          refine PC.bind ((recordMut_silent _ _).run c4) ?_
-          intro _ c5 hs
-          refine PC.bind (addReference_push _ _ c5) ?_
-          intro _ c6 hp2
-          have h := h.step (Vis.reg2 (loc := loc) hp1 hs hp2 (gnm.ok hn) hloc) (by djs hn)
+          refine PC.silent_bind (Silent.withSM _) h ?_
+          intro par c3 h
           split
-          · rename_i v hv
-            have gv := Got.child hv
-            exact PC.visit_bind_silent (hr.value v (gv.ok hn)) h (by djs hn) (by intros; silent) (by ins hn)
-          · exact PC.pure (h.exit (by ins hn))
+          · -- an inherited field: the new field is defined, then the overridden one is referenced, at the same
+            -- identifier
+            refine PC.bind (addRecordField_push _ c3) ?_
+            intro fid c4 hp1
+            refine PC.bind ((recordMut_silent _ _).run c4) ?_
+            intro _ c5 hs
+            refine PC.bind (addReference_push _ _ c5) ?_
+            intro _ c6 hp2
+            have h := h.step (Vis.reg2 (loc := loc) hp1 hs hp2 (gnm.ok hn) hloc) (by djs hn)
+            split
+            · rename_i v hv
+              have gv := Got.child hv
+              exact PC.visit_bind_silent (hr.value v (gv.ok hn)) h (by djs hn) (by intros; silent) (by ins hn)
+            · exact PC.pure (h.exit (by ins hn))
+          · -- a field of the record itself: only the reference
+            refine PC.reg_bind (addReference_push _ _ c3) h (gnm.ok hn) hloc (by intro L hL; cases hL; rfl)
+              (by djs hn) ?_
+            intro _ c4 h
+            split
+            · rename_i v hv
+              have gv := Got.child hv
+              exact PC.visit_bind_silent (hr.value v (gv.ok hn)) h (by djs hn) (by intros; silent) (by ins hn)
+            · exact PC.pure (h.exit (by ins hn))
         · refine PC.silent_bind (error_silent _ _) h ?_
           intro _ c3 h
           split
@@ -1372,7 +1423,7 @@ theorem indexSimpleValue_vis (hnode : n.isNode = true) : VSpec ws0 (indexSimpleV
       have gvl := Got.child hvl
       refine PC.bind (valueList_loop hr hn gvl (fun x hx b => hvalue x hx _ (by intros; silent)) c f hc) ?_
       intro _ c1 h1
-      split <;> exact PC.pure h1
+      exact PC.pure h1
     · exact PC.pure (h.exit (by ins hn))
   · -- List
     split
@@ -1571,7 +1622,10 @@ theorem indexValue_vis : VSpec ws0 (indexValue r n) n := by
         rcases hv with rfl | hv
         · exact gfv.inside hn
         · exact (hmem v hv).inside hn
-      split <;> exact PC.pure (h2.exit hin)
+      split
+      · exact PC.pure (h2.exit hin)
+      · exact PC.pure (h2.exit hin)
+      · split <;> exact PC.pure (h2.exit hin)
   · exact PC.pure (h.exit (by ins hn))
 
 end values
